@@ -31,6 +31,13 @@ pub uninterp spec fn clock() -> u64;
 pub uninterp spec fn time_of(h: int) -> u64;
 
 pub struct Duration { pub d: u64 }
+impl Duration {
+    // std::cmp::Ord::max / min on Duration (A-std)
+    #[verifier::external_body]
+    pub fn max(self, o: Duration) -> (r: Duration) ensures r.d == (if self.d >= o.d { self.d } else { o.d }) { unimplemented!() }
+    #[verifier::external_body]
+    pub fn min(self, o: Duration) -> (r: Duration) ensures r.d == (if self.d <= o.d { self.d } else { o.d }) { unimplemented!() }
+}
 #[derive(Clone, Copy)]
 pub struct Time { pub t: u64 }
 impl Time {
